@@ -77,6 +77,111 @@ def run(ctx, F, cg):
         else:
             ctx.ok("R34e", short, "no thread-count source reachable inside the crate")
     ctx.floor("R34e", "solvers examined for thread-count sources", n_t, 29)
+    # ---- R34f: the incumbent of a solver without an elitist copy never moves -------------------------------------
+    ctx.rule("R34f", "Firefly reports population[best_idx] as its history and keeps no separate best-so-far copy, so the history can only stay monotone if the best firefly never moves: in the attraction closure, the block that marks a firefly as moved is not reachable on the equal-fitness outcome of the fitness comparison that guards it (only the orderings <, =, > of the two fitness values matter)")
+    ff = CRATE + "algorithms::firefly::FireflySolver::solve"
+    if ff not in F.fns:
+        ctx.anchor_failure("R34f", "FireflySolver::solve")
+    else:
+        fb = Body(F.mir(ff), F.fns[ff])
+        elitist = True
+        for c in fb.calls():
+            if c.path.endswith("Vec::<T, A>::push") and c.args and c.args[0][0] != "k" and "Vec<f64>" in fb.local_ty(c.args[0][1][0]) and len(c.args) > 1 and c.args[1][0] != "k":
+                og = fb.origins(c.args[1][1][0], through_calls=lambda cc: [0] if cc.path.rsplit("::", 1)[-1] in ("index", "deref") else None)
+                if any(o[0] == "via" and o[1].path.rsplit("::", 1)[-1] == "index" for o in og):
+                    elitist = False
+        if elitist:
+            ctx.ok("R34f", "firefly|elitist-copy", "history is not read from the population by index; the rule does not apply")
+        else:
+            found = 0
+            for cp in sorted(c_ for c_ in F.fns if c_.startswith(ff + "::{closure")):
+                cr = F.fns[cp]
+                cb = Body(F.mir(cp), cr)
+                cmps = []
+                for i, j, pl, rv, line, exp in cb.stmts():
+                    if rv[0] == "bin" and rv[1] in od.CMP and all(o[0] != "k" and any(f.endswith("Individual.fitness") for f in od.chain_fields(cb, o)) for o in rv[2:4]):
+                        cmps.append((i, pl[0], rv[1], line))
+                marks = [(i, line) for i, j, pl, rv, line, exp in cb.stmts() if rv[0] == "use" and rv[1][0] == "k" and rv[1][1].strip() == "const true" and cb.local_ty(pl[0]) == "bool" and not pl[1]]
+                if not cmps or not marks:
+                    continue
+                ctx.saw_fn(cp)
+                for (ci, cl, op, line) in cmps:
+                    eq_val = "1" if op in ("Le", "Ge", "Eq") else "0"
+                    for sb in sorted(cb.live_blocks()):
+                        t = cb.blocks[sb]["t"]
+                        if t[0] != "switch" or t[1][0] == "k" or t[1][1][0] != cl:
+                            continue
+                        tk = [tgt for v, tgt in t[2] if v == eq_val]
+                        taken = tk[0] if tk else t[3]
+                        reach = cb.reachable(taken, avoid={sb})
+                        found += 1
+                        hit = [m for m in marks if m[0] in reach]
+                        if hit:
+                            ctx.violation("R34f", "firefly|moves-on-tie", where(cr, line), "a firefly is moved (line %d) when the other one's fitness is merely equal to its own: two fireflies tied for best move each other, the incumbent gets worse and the reported history increases" % hit[0][1])
+                        else:
+                            ctx.ok("R34f", "firefly|strict-attraction", "the moved mark is unreachable on the equal-fitness outcome")
+            if not found:
+                ctx.anchor_failure("R34f", "fitness comparison guarding a moved mark in FireflySolver::solve closures")
+    # ---- R34g: the history of every single-objective solver is monotone by construction ------------------------------
+    ctx.rule("R34g", "the best-fitness history never gets worse, decided per single-objective solver from the shape of solve(): (A) the pushed value is a loop-carried best-so-far holder whose every in-loop assignment lies on the true side of `new < holder`; or (P) it is read from the population and every member written inside the iteration loop (solve() and the closures created in it) lies on the true side of a comparison against a member's current fitness; or (C) a reviewed mechanism: Firefly — the best never moves (R34f), GA — the recorded member is cloned into the next generation on every path")
+    from .. import histrules as hr
+    c_table = {"firefly": (lambda *a_: (True, "the best firefly never moves (decided by R34f)")), "ga": hr.ga_elitism}
+    n_h = 0
+    classes = {}
+    for s_ in solves:
+        r_ = F.fns[s_]
+        if "OptimizationResult" not in r_["sig"] or "MultiObjective" in r_["sig"]:
+            continue
+        short = s_.replace(CRATE + "algorithms::", "").replace("::solve", "")
+        res = hr.classify(F, s_, c_table)
+        n_h += 1
+        classes.setdefault(res["cls"], []).append(short.split("::")[0])
+        if res["ok"]:
+            ctx.ok("R34g", short + "|history", "class %s: %s" % (res["cls"], res["why"]))
+        else:
+            ctx.violation("R34g", short + "|history", where(F.fns.get(res.get("fn", s_), r_), res.get("line")), res["why"])
+    ctx.floor("R34g", "single-objective solvers whose history is decided", n_h, 25)
+    ctx.note("history classes: " + "; ".join("%s: %s" % (k, ", ".join(sorted(v))) for k, v in sorted(classes.items())))
+    # ---- R34h: a placeholder fitness never reaches the result ----------------------------------------------------------
+    ctx.rule("R34h", "the reported best fitness is the fitness of the reported best variables: where solve() writes a constant into the fitness of an Individual that feeds OptimizationResult (a placeholder such as infinity), every path from that write to the result passes a whole reassignment of that individual or a call of a crate function that takes it by `&mut` (the ranking scan) — including the path that never enters the iteration loop")
+    n_ph = 0
+    for s_ in solves:
+        r_ = F.fns[s_]
+        if "OptimizationResult" not in r_["sig"]:
+            continue
+        sb_ = Body(F.mir(s_), r_)
+        short = s_.replace(CRATE + "algorithms::", "").replace("::solve", "")
+        aggs = [(i, rv) for i, j, pl, rv, line, exp in sb_.stmts() if rv[0] == "agg" and rv[1].endswith("OptimizationResult")]
+        feeds = set()
+        for i, rv in aggs:
+            for o in rv[2][:2]:
+                if o[0] != "k":
+                    feeds |= od.chain_locals(sb_, o)
+        k = 0
+        for i, j, pl, rv, line, exp in sb_.stmts():
+            if not (rv[0] == "use" and rv[1][0] == "k" and any(isinstance(x, str) and x.endswith("Individual.fitness") for x in pl[1])):
+                continue
+            X = pl[0]
+            if X not in feeds:
+                continue
+            n_ph += 1
+            mrefs = {pl2[0] for i2, j2, pl2, rv2, l2, e2 in sb_.stmts() if rv2[0] == "ref" and rv2[1] == 1 and rv2[2][0] == X and not rv2[2][1] and not pl2[1]}
+            for _ in range(4):      # reborrows (`&mut *r`) and moves of the reference
+                mrefs |= {pl2[0] for i2, j2, pl2, rv2, l2, e2 in sb_.stmts() if not pl2[1] and ((rv2[0] == "ref" and rv2[2][0] in mrefs) or (rv2[0] == "use" and rv2[1][0] != "k" and rv2[1][1][0] in mrefs and not rv2[1][1][1]))}
+            redefs = {i2 for i2, j2, pl2, rv2, l2, e2 in sb_.stmts() if pl2[0] == X and not pl2[1]}
+            for c in sb_.calls():
+                if c.dest[0] == X and not c.dest[1]:
+                    redefs.add(c.bb)
+                if c.path in F.fns and any(a_[0] != "k" and a_[1][0] in mrefs for a_ in c.args):
+                    redefs.add(c.bb)
+            redefs.discard(i)
+            inst = "%s|placeholder-fitness|%d" % (short, k)
+            k += 1
+            if all(sb_.must_pass(i, ai, redefs) for ai, _ in aggs if ai in sb_.reachable(i)):
+                ctx.ok("R34h", inst, "the placeholder written at line %d is replaced on every path to the result" % line)
+            else:
+                ctx.violation("R34h", inst, where(r_, line), "the constant written into the best individual's fitness (line %d) can reach OptimizationResult unchanged — on the path that skips the iteration loop the solver reports that placeholder as best_fitness, next to variables whose real fitness is different" % line)
+    ctx.floor("R34h", "placeholder fitness writes feeding a result", n_ph, 1)
     # ---- R34d ------------------------------------------------------------------------------------------
     per = {}
     total = 0
